@@ -160,6 +160,10 @@ def run(ctx):
             check_prog(ctx, r, p, n)
     fam.each_bin(per_bin)
     ctx.cov["programs"] = len(fam.progs)
+    # a slice of the corpus built in the release profile (no debug assertions / overflow checks): what gets deployed
+    rel = ctx.family("release")
+    rel.each_bin(lambda b, progs, r: [check_prog(ctx, r, p, n) for p in progs])
+    ctx.cov["release_profile_programs"] = len(rel.progs)
     # handlers taking 128-bit primitives: their JSON numbers may lie beyond the 64-bit range
     wide = ctx.family("wide")
     wctx = WideCtx(ctx)
